@@ -68,9 +68,22 @@ def run(tier):
         [{"cfg": "t0", "batches": ["b3"]}, {"cfg": "t9", "batches": ["b3"]}, {"cfg": "t0", "batches": ["b3", "b3"]}],
         [{"cfg": "t0", "batches": ["b1"]}, {"cfg": "c0", "batches": ["b1"]}, {"cfg": "t0", "batches": ["b1"]}],
         [{"cfg": "t5", "batches": ["b1", "b3"]}, {"cfg": "t9", "batches": ["b3", "b1"]}, {"cfg": "t5", "batches": ["b3", "b1"]}],
+        # rows with further columns: same reactions, other pass-through values -> other entries
+        [{"cfg": "t0", "batches": ["b1x"]}, {"cfg": "t0", "batches": ["b1y"]}, {"cfg": "t0", "batches": ["b1"]},
+         {"cfg": "t0", "batches": ["b1x"]}, {"cfg": "t5", "batches": ["b1y"]}],
+        [{"cfg": "t0", "batches": ["b1"]}, {"cfg": "t0", "batches": ["b1x"]}, {"cfg": "t0", "batches": ["b3x", "b1y"]},
+         {"cfg": "t0", "batches": ["b3", "b1x"]}],
+        # batch_size None: the whole input is one batch, so one entry
+        [{"cfg": "n0", "batches": ["b1", "b2"]}, {"cfg": "t0", "batches": ["b1", "b2"]}, {"cfg": "n0", "batches": ["b1", "b2"]},
+         {"cfg": "n0", "batches": ["b2", "b1"]}, {"cfg": "n5", "batches": ["b1", "b2"]}],
+        [{"cfg": "n0", "batches": ["b1x", "b2"]}, {"cfg": "n0", "batches": ["b1y", "b2"]}, {"cfg": "n0", "batches": ["b1", "b2"]},
+         {"cfg": "n0", "batches": ["b1y", "b2"]}],
+        [{"cfg": "t0", "batches": ["b1"]}, {"cfg": "n0", "batches": ["b1"]}, {"cfg": "n5", "batches": ["b1"]},
+         {"cfg": "t5", "batches": ["b1"]}],
     ]
     plan = {"keys": [["b1", "t0"], ["b1", "t5"], ["b2", "t0"], ["b2", "t5"], ["b3", "t0"], ["b3", "t9"], ["b1", "c0"],
-                     ["b3", "t5"], ["b1", "t9"]],
+                     ["b3", "t5"], ["b1", "t9"], ["b1x", "t0"], ["b1y", "t0"], ["b1y", "t5"], ["b3x", "t0"],
+                     ["b1", "n0"], ["b2", "n0"], ["b1", "n5"], ["b2", "n5"], ["b1x", "n0"], ["b1y", "n0"]],
             "states": plan_states, "histories": plan_h, "prefix_step": 211 if tier == "quick" else 7}
     pf = os.path.join(wd, "plan.json")
     with open(pf, "w") as f:
